@@ -199,16 +199,10 @@ impl Repr {
             // SAFETY: We just checked that `self` is HeapBuffer
             let heap = unsafe { self.as_heap_buffer_mut() };
 
-            // Because `fetch_sub` is already atomic, we should use `Release` ordering to avoid
-            // unexpected drop of the buffer and to ensure that the buffer is unique.
-            if heap.reference_count().fetch_sub(1, Release) == 1 {
+            // `is_unique` loads the reference count with `Acquire`: if it reads 1, every access of
+            // the former owners happens-before us and nobody else can reach the buffer anymore.
+            if heap.is_unique() {
                 // `heap` is unique, we can reallocate in place.
-
-                // We need to rollback the reference count.
-                // We should use `Acquire` ordering to prevent reordering of the reallocation and
-                // the reference count increment.
-                // This is a same meaning of `fence(Acquire); fech_add(1, Relaxed);`
-                heap.reference_count().fetch_add(1, Acquire);
 
                 if heap.capacity() >= needed_capacity {
                     // No need to reserve more capacity.
@@ -221,11 +215,12 @@ impl Repr {
                 // - `amortized_capacity` is greater than `len`.
                 unsafe { heap.realloc(amortized_capacity)? };
             } else {
-                // heap is shared, we need to reallocate a new buffer.
-                // We already decremented the reference count, no need to touch it again.
+                // heap is shared, we need to allocate a new buffer.
+                // We keep our reference while copying (and on failure): it is released only after
+                // the copy succeeded, so the buffer cannot be freed or written under us.
                 let str = heap.as_str();
                 let new_heap = HeapBuffer::with_additional(str, additional)?;
-                *self = Repr::from_heap(new_heap);
+                self.replace_inner(Repr::from_heap(new_heap));
             }
             Ok(())
         } else if self.is_static_buffer() {
@@ -635,17 +630,13 @@ impl Repr {
             // SAFETY: we just checked self is HeapBuffer
             let heap = unsafe { self.as_heap_buffer_mut() };
 
-            // See `reverse` method for the explanation of the ordering.
-            if heap.reference_count().fetch_sub(1, Release) == 1 {
-                // `heap` is unique, we can modify it in place.
-
-                // See `reverse` method for the explanation of the ordering.
-                heap.reference_count().fetch_add(1, Acquire);
-            } else {
-                // SAFETY: `heap` is shared, we need to create a new buffer.
+            // See `reserve` method for the explanation of the uniqueness check.
+            if !heap.is_unique() {
+                // `heap` is shared, we need to create a new buffer. Our reference is released
+                // only after the copy succeeded.
                 let str = heap.as_str();
                 let new_heap = HeapBuffer::new(str)?;
-                *self = Repr::from_heap(new_heap);
+                self.replace_inner(Repr::from_heap(new_heap));
             }
         } else if self.is_static_buffer() {
             // StaticBuffer is immutable, need to convert to other buffer.
